@@ -15,6 +15,7 @@ CONSTANTS
   MaxFaults = %(faults)d
   UserMayCancel = %(cancel)s
   Kind = "%(kind)s"
+  NeedHead = %(head)s
 %(invs)sINVARIANT C12_QueueSlotsConserved
 INVARIANT C05_CleanupRegisteredBeforeRun
 INVARIANT C17_LocksHeldByAnnouncers
@@ -55,7 +56,9 @@ def run(ck, pid, tier, seed):
              dict(p=1, r=2, rq=1, faults=1, cancel='TRUE', live=True),
              dict(p=0, r=1, rq=1, faults=1, cancel='TRUE', live=True),
              dict(p=0, r=2, rq=1, faults=1, cancel='TRUE', kind='delete', live=True),
-             dict(p=2, r=1, rq=1, faults=1, cancel='TRUE', live=True)]
+             dict(p=2, r=1, rq=1, faults=1, cancel='TRUE', live=True),
+             dict(p=2, r=2, rq=2, faults=1, cancel='TRUE', kind='copy', head='TRUE', live=False),
+             dict(p=0, r=1, rq=1, faults=1, cancel='TRUE', kind='copy', head='TRUE', live=True)]
     if tier == 'thorough':
         confs += [dict(p=3, r=2, rq=2, faults=1, cancel='TRUE', live=False),
                   dict(p=2, r=2, rq=2, faults=2, cancel='TRUE', live=False),
@@ -69,10 +72,11 @@ def run(ck, pid, tier, seed):
         confs = confs[:2] + [rest[(k + i) % len(rest)] for i in range(min(2, len(rest)))]
     for c in confs:
         c.setdefault('kind', 'upload')
+        c.setdefault('head', 'FALSE')
         cfg = CFG if c['live'] else SAFE_CFG
         r = tlc.run_tlc('MC_Pipeline', cfg % dict(c, invs=invs), workers=14,
                         timeout=3000, files={'MC_Pipeline.tla': mod})
-        ck.add_tlc(f'Pipeline {c["kind"]} P={c["p"]} R={c["r"]} RQ={c["rq"]} faults={c["faults"]} '
+        ck.add_tlc(f'Pipeline {c["kind"]}{"+head" if c["head"] == "TRUE" else ""} P={c["p"]} R={c["r"]} RQ={c["rq"]} faults={c["faults"]} '
                    f'cancel={c["cancel"]} {"safety+liveness" if c["live"] else "safety"}', r)
         for v in r.violated:
             name = v[2:] if v.startswith('I_') else v
